@@ -16,7 +16,7 @@ for d in sorted(glob.glob(os.path.join(V, "seeded", "C*-*"))):
 with open(os.path.join(V, "seeded", "RESULTS.md"), "w") as f:
     f.write("# Seeded property-breaking changes\n\nEach change was produced by a fresh sub-agent that saw only the property text "
             "and a scratch worktree; confirmed here (686 tests pass with it, its demo fails with it and passes without), "
-            "applied to /repo, checked, reverted (tools/try_seed.sh).  `caught by` lists the checks (among those run against it) "
+            "run against the checks and undone (tools/try_seed.sh: earlier waves by `git -C /repo apply` + `checkout`, later waves through `ARMMC_REPO=<worktree>` so that /repo stays untouched).  `caught by` lists the checks (among those run against it) "
             "that exit 1 with a VIOLATION line on every run.\n\n| seed | property | change (first line of the author's note) | caught by | "
             "history |\n|---|---|---|---|---|\n" + "\n".join(rows) + "\n")
 print(len(rows), "seeds")
